@@ -519,14 +519,84 @@ def run_task(task):
 # ------------------------------------------------------------------------------------------------
 # replay: concrete evaluation of the real emitted RTLIL against the real simulator
 
+def _capture_design(t):
+    """(name, module, ports) of a template unit, through the unit builders (check_module is intercepted)"""
+    captured = {}
+    global check_module
+    real = check_module
+
+    def fake(name, m, ports, **kw):
+        captured["d"] = (name, m, ports)
+        return {"task": name, "paths": 0, "solver_s": 0.0, "obligations": []}
+    check_module = fake
+    try:
+        if t[0] == "hier":
+            unit_hier(t[1])
+        else:
+            run_one(t)
+    finally:
+        check_module = real
+    return captured.get("d")
+
+
 def replay_unit(t, model):
-    """Evaluate the emitted RTLIL (with the RTLIL evaluator) and the real simulator on the model's values."""
-    return None
+    """Concrete replay of a combinational unit: the real Simulator, the real netlist (evaluated with integers) and the real
+    RTLIL text (parsed and evaluated with integers) on the counter-model's input values."""
+    from amaranth.hdl._ir import build_netlist, Fragment
+    from amaranth.back import rtlil
+    from amaranth.sim import Simulator
+    d = _capture_design(t)
+    if d is None:
+        return None
+    name, m, ports = d
+    nl = build_netlist(Fragment.get(m, None), ports)
+    top = nl.cells[0]
+    vals = {s.name: model.get(f"sig_{s.name}", 0) for s in ports}
+    ins = [s for s in ports if s.name in top.ports_i]
+    outs = [s for s in ports if s.name in top.ports_o]
+    if any(type(c).__name__ == "FlipFlop" for c in nl.cells):
+        return None          # register contents cannot be forced in the real simulator
+    d2 = _capture_design(t)
+    _n2, m2, ports2 = d2
+    by_name = {s.name: s for s in ports2}
+    sim_vals = {}
+    sim = Simulator(m2)
+
+    async def tb(ctx):
+        for s in ins:
+            ctx.set(by_name[s.name], vals[s.name])
+        for s in outs:
+            sim_vals[s.name] = ctx.get(by_name[s.name])
+    sim.add_testbench(tb)
+    sim.run()
+    inputs = {s.name: vals[s.name] & mask(len(s)) for s in ins}
+    ev = NirEval(nl, inputs, {})
+    nir_vals = {s.name: int(ev.value(top.ports_o[s.name])) for s in outs}
+    d3 = _capture_design(t)
+    mods = RP.parse(rtlil.convert(d3[1], ports=d3[2], emit_src=False))
+    rev = RtlilEval(mods, inputs=dict(inputs), state={})
+    rt_vals = {s.name: int(rev.out(s.name)) for s in outs}
+    diff = {s.name: {"simulator": sim_vals[s.name] & mask(len(s)), "netlist": nir_vals[s.name], "rtlil": rt_vals[s.name]}
+            for s in outs if len({sim_vals[s.name] & mask(len(s)), nir_vals[s.name], rt_vals[s.name]}) > 1}
+    if not diff:
+        return None
+    return {"unit": repr(t), "inputs": {k: vals[k] for k in inputs}, "outputs that differ": diff,
+            "how": "real Simulator vs. real build_netlist output (cell semantics of hdl/_nir.py) vs. real rtlil.convert text (parsed, Yosys cell "
+                   "semantics), all evaluated on these input values"}
 
 
 def find_failing_input(res, ob):
     if ob.get("model") is None:
         return None
+    nm = ob["name"].split("::")[0]
+    if not nm.startswith(("design[", "ff(", "canary")):
+        try:
+            t = ("hier", int(nm[4:])) if nm.startswith("hier") else _unit_of(ob["name"])
+            r = replay_unit(t, ob["model"])
+            if r is not None:
+                return r
+        except Exception:
+            pass
     return {"model": ob["model"], "how": "exact counter-model: port signal values (sig_<name>) / register contents for which the "
             "netlist or RTLIL evaluation of the real build_netlist / rtlil.convert output differs from the reference; "
             "obligation " + ob["name"]}
@@ -538,7 +608,11 @@ def _unit_of(obname):
 
 def replay(data):
     nm = data["obligation"].split("::")[0]
-    if nm.startswith("hier"):
+    if nm.startswith("design["):
+        from . import c04_designs
+        names = [d[0] for d in c04_designs.designs("thorough")]
+        r = c04_designs.run_design("thorough", names.index(nm[len("design["):-1]))
+    elif nm.startswith("hier"):
         r = unit_hier(int(nm[4:]))
     elif nm.startswith("ff("):
         import re
